@@ -62,8 +62,8 @@ PROPS = {
         ],
     },
     "C04": {
-        "modules": ["SamlModel.Props.C04", "SamlModel.Props.HandlerGen", "SamlModel.Props.SendBack", "SamlModel.Props.RedirectSignGen", "SamlModel.Props.Stateless"],
-        "translated": ["createRedirectSignature", "BuildRedirectQuery", "getResponseCert"],
+        "modules": ["SamlModel.Props.C04", "SamlModel.Props.HandlerGen", "SamlModel.Props.SendBack", "SamlModel.Props.RedirectSignGen", "SamlModel.Props.Stateless", "SamlModel.Props.MetadataGen"],
+        "translated": ["createRedirectSignature", "BuildRedirectQuery", "getResponseCert", "Provider_GetMetadata"],
         "trusted_base": COMMON_TRUST + CB_TRUST + [
             "RSA / SHA are not modelled: C04_redirect_query states that an independent verifier recovers exactly the signed octets, the algorithm URI and the signature bytes from the query sent; that rsa.VerifyPKCS1v15 then accepts is the law verify(pk, m, sign(sk, m)) of the scheme, observed with real keys on every redirect reply",
             "Lib.Url (QueryUnescape, the saml-bindings 3.4.4.1 verifier over the raw query) is written from the specification; it is compared on every run with net/url and with the harness's independent Go verifier (`lib qunesc`, `lib rverify`), also on the queries the real BuildRedirectQuery assembles from random values",
@@ -74,16 +74,16 @@ PROPS = {
                         "a registered consumer URL contains no '#' (a fragment would swallow the query); URLs with an own query are covered by C04_redirect_url_with_query under the stated hypothesis that they do not themselves carry a SAMLResponse / RelayState / SigAlg / Signature parameter"],
     },
     "C05": {
-        "modules": ["SamlModel.Props.C05", "SamlModel.Props.SendBack", "SamlModel.Props.SsoGen", "SamlModel.Props.RedirectSigGen", "SamlModel.Props.SsoProps", "SamlModel.Props.Stateless"],
+        "modules": ["SamlModel.Props.C05", "SamlModel.Props.SendBack", "SamlModel.Props.SsoGen", "SamlModel.Props.RedirectSigGen", "SamlModel.Props.SsoProps", "SamlModel.Props.Stateless", "SamlModel.Props.DecodeGen", "SamlModel.Props.MetadataGen"],
         "translated": ["ServiceProvider_ValidateRedirectSignature", "IdentityProvider_ssoHandleFunc", "getAuthRequestFromRequest", "signaturePostProvided", "signaturePostVerificationNecessary", "signatureRedirectVerificationNecessary",
-                       "verifyRedirectSignature", "verifyPostSignature", "certificateCheckNecessary", "checkCertificate", "isXSBooleanTrue"],
+                       "verifyRedirectSignature", "verifyPostSignature", "certificateCheckNecessary", "checkCertificate", "isXSBooleanTrue", "DecodeAuthNRequest"],
         "trusted_base": COMMON_TRUST + SSO_TRUST + [
             "ServiceProvider.ValidateRedirectSignature is translated (RedirectSigGen.validateRedirect_spec: it hands exactly `octets request relayState sigAlg`, the base64-decoded Signature and the registered key to signature.ValidateRedirect; octets_injective: the octets determine the three values; C05_redirect_signature_covers_what_is_acted_on combines it with the handler theorems under the stated link hypothesis that the storage's service providers use the library's method). RSA / DSA verification (signature.ValidateRedirect) and XML-DSig validation (ValidatePostSignature: goxmldsig, etree) are oracles, sampled by the harness with real keys, not proved; signature-wrapping inside goxmldsig/etree vs encoding/xml is outside the theorem",
         ],
         "assumptions": ["Form.WF: the binding decision of getAuthRequestFromRequest is POST or Redirect (fingerprinted function; checked on every case by the sso correspondence)"],
     },
     "C06": {
-        "modules": ["SamlModel.Props.C06", "SamlModel.Props.SendBack", "SamlModel.Props.SsoGen", "SamlModel.Props.SsoProps", "SamlModel.Props.DecodeGen", "SamlModel.Props.Stateless"],
+        "modules": ["SamlModel.Props.C06", "SamlModel.Props.SendBack", "SamlModel.Props.SsoGen", "SamlModel.Props.SsoProps", "SamlModel.Props.DecodeGen", "SamlModel.Props.Stateless", "SamlModel.Props.MetadataGen"],
         "translated": ["DecodeAuthNRequest", "DecodeLogoutRequest", "IdentityProvider_ssoHandleFunc", "getAuthRequestFromRequest", "checkRequestRequiredContent", "checkIfRequestTimeIsStillValid", "verifyRequestDestinationOfAuthRequest", "ServiceProvider_GetEntityID"],
         "trusted_base": COMMON_TRUST + SSO_TRUST + [
             "time.Parse / time.Now are oracles (Ora.timeParse, Ora.now) in C06_accept_implies_valid and its corollaries; for the library's DefaultTimeFormat time.Parse is additionally modelled (Lib.Time.parseDefault, written from Go 1.23's time/format.go; compared with time.Parse on a boundary corpus and 2*10^4 (thorough 3*10^5) mutated strings on every run: `lib timeparse`) and C06_window_concrete / C06_zero_time_is_expired are stated over that model under the hypothesis ParsesAsGo; XML decoding (DecodeAuthNRequest incl. base64/DEFLATE) is an oracle whose failure is `decoded = none`",
@@ -91,7 +91,7 @@ PROPS = {
         "assumptions": ["wall-clock cases keep a 10-minute guard band; the exact boundary NotBefore <= now < NotOnOrAfter is covered by the theorem on the translated time.go"],
     },
     "C08": {
-        "modules": ["SamlModel.Props.C08", "SamlModel.Props.SendBack", "SamlModel.Props.SsoGen", "SamlModel.Props.SsoProps", "SamlModel.Props.Stateless"],
+        "modules": ["SamlModel.Props.C08", "SamlModel.Props.SendBack", "SamlModel.Props.SsoGen", "SamlModel.Props.SsoProps", "SamlModel.Props.Stateless", "SamlModel.Props.DecodeGen", "SamlModel.Props.MetadataGen"],
         "translated": ["IdentityProvider_ssoHandleFunc", "getAuthRequestFromRequest", "GetAcsUrlAndBindingForResponse", "checkRequestRequiredContent"],
         "trusted_base": COMMON_TRUST + SSO_TRUST + [
             "that the implementation writes exactly one reply and calls CreateAuthRequest at most once is observed by the harness (reply parser counts documents/forms; storage call log), the model's Result holds one of each by construction",
@@ -139,13 +139,13 @@ PROPS = {
         "assumptions": ["duplicates in the query may duplicate answer entries; the filter is specified as a set (C12_filter_spec), as the property's quantifier says"],
     },
     "C14": {
-        "modules": ["SamlModel.Props.C14"],
-        "translated": ["InflateAndDecode"],
+        "modules": ["SamlModel.Props.C14", "SamlModel.Props.DecodeGen", "SamlModel.Props.C14Gen"],
+        "translated": ["InflateAndDecode", "DecodeAuthNRequest", "DecodeLogoutRequest", "getAuthRequestFromRequest", "getLogoutRequestFromRequest", "IdentityProvider_ssoHandleFunc", "IdentityProvider_logoutHandleFunc"],
         "trusted_base": COMMON_TRUST + [
             "compress/flate is an oracle (Ora.inflate: the byte stream the inflater would deliver); io.LimitReader / io.ReadAll are modelled in Lib.Stream (differentially tested through the InflateAndDecode fn op with the real inflater's behaviour as oracle answer)",
             "that the Go allocator's usage is proportional to the bytes materialised, and compress/flate's own window, are measured (runtime.MemStats.TotalAlloc delta around one ServeHTTP per bomb), not proved",
         ],
-        "assumptions": ["the three callers (DecodeAuthNRequest, DecodeLogoutRequest via the SSO/logout form readers) reach the inflater only through InflateAndDecode (fingerprinted)"],
+        "assumptions": ["the callers reach the inflater only through InflateAndDecode: DecodeAuthNRequest / DecodeLogoutRequest and the two form readers are translated on every run (DecodeGen.decodeAuthN_spec / decodeLogout_spec; C14Gen: an over-sized payload is an error of the regenerated decoders, is never accepted by the regenerated ssoHandleFunc and never answered with Success by the regenerated logoutHandleFunc); the handlers consult the decoders as oracles, linked by the hypotheses AuthNDecoderIsGenerated / LogoutDecoderIsGenerated; DecodeAttributeQuery takes no DEFLATE input (SOAP body)"],
     },
     "C17": {
         "modules": ["SamlModel.Props.C17", "SamlModel.Props.SendBack", "SamlModel.Props.Stateless"],
@@ -183,7 +183,7 @@ PROPS = {
         "assumptions": ["scheme comparison follows net/url (scheme is lower-cased by the parser; schemes are case-insensitive per RFC 3986)"],
     },
     "C02": {
-        "modules": ["SamlModel.Props.C02", "SamlModel.Props.HandlerGen", "SamlModel.Props.HandlerProps", "SamlModel.Props.SendBack", "SamlModel.Props.LogoutProps", "SamlModel.Props.SsoProps", "SamlModel.Props.Stateless"],
+        "modules": ["SamlModel.Props.C02", "SamlModel.Props.HandlerGen", "SamlModel.Props.HandlerProps", "SamlModel.Props.SendBack", "SamlModel.Props.LogoutProps", "SamlModel.Props.SsoProps", "SamlModel.Props.Stateless", "SamlModel.Props.DecodeGen", "SamlModel.Props.MetadataGen"],
         "translated": ["GetAcsUrlAndBindingForResponse", "IdentityProvider_logoutHandleFunc", "LogoutResponse_sendBackLogoutResponse"],
         "trusted_base": COMMON_TRUST + SSO_TRUST + CB_TRUST + SLO_TRUST + [
             "the auto-submit form (action attribute) is covered byte-exactly by C17; the redirect URL assembly (two fingerprinted lines of sendBackResponse) is hand-modelled as redirectURL",
@@ -191,8 +191,8 @@ PROPS = {
         "assumptions": ["callback: 'registered' is by composition with the SSO theorem - the stored pair is the pair the SSO endpoint persisted (C02_sso_persists_registered_pair); storage is trusted to return what was stored"],
     },
     "C10": {
-        "modules": ["SamlModel.Props.C10", "SamlModel.Props.HandlerGen", "SamlModel.Props.SendBack", "SamlModel.Props.LogoutProps", "SamlModel.Props.AttrQueryProps", "SamlModel.Props.SsoProps", "SamlModel.Props.MetadataGen", "SamlModel.Props.Stateless"],
-        "translated": ["getResponseCert", "getMetadataCert", "Config_getMetadata", "Provider_GetMetadata", "Provider_metadataHandle"],
+        "modules": ["SamlModel.Props.C10", "SamlModel.Props.HandlerGen", "SamlModel.Props.SendBack", "SamlModel.Props.LogoutProps", "SamlModel.Props.AttrQueryProps", "SamlModel.Props.SsoProps", "SamlModel.Props.MetadataGen", "SamlModel.Props.Stateless", "SamlModel.Props.DecodeGen", "SamlModel.Props.MetadataProps"],
+        "translated": ["getResponseCert", "getMetadataCert", "Config_getMetadata", "Provider_GetMetadata", "Provider_metadataHandle", "IdentityProvider_GetMetadata"],
         "trusted_base": COMMON_TRUST + SSO_TRUST + CB_TRUST + [
             "Model.Metadata (metadata / certificate / readiness handlers): hand model tied by fingerprints and its correspondence; in addition Provider.metadataHandle, Provider.GetMetadata, Config.getMetadata and getMetadataCert are translated on every run and MetadataGen.metadataHandle_spec characterises the regenerated handler for every environment (IdentityProvider.GetMetadata, GetMetadataSigningKey, signature.GetSigner / Create, the write error as typed oracles): C10_generated_metadata_key_failure / _signer_failure (no document when the key or the signer fails), C11_generated_signed_iff_configured; IdentityProviderConfig.getMetadata / IdentityProvider.GetMetadata / GetEntityID are translated standalone (the loop that blanks attribute values through the pointers of a fresh slice is a map in the value model) and C11_generated_metadata states what the regenerated descriptors advertise: SSO / SLO / attribute locations = the endpoints' absolute URLs for the issuer in effect, WantAuthnRequestsSigned verbatim, every key descriptor = the response signing certificate; Model.Logout, Model.AttrQuery, Model.Sso: tied by the refinement proofs over the regenerated handlers",
             "the fault enumeration on the implementation is exhaustive over (endpoint x storage call occurrence of the fault-free run x fault kind), singly and in pairs, for one valid request shape per endpoint",
@@ -212,10 +212,10 @@ PROPS = {
                         "hunsigned (C11_want_signed_means_refused): the XML-DSig validator rejects a document without signature (goxmldsig; sampled)"],
     },
     "C09": {
-        "modules": ["SamlModel.Props.C09", "SamlModel.Props.HandlerGen", "SamlModel.Props.SendBack", "SamlModel.Props.LogoutProps", "SamlModel.Props.AttrQueryProps", "SamlModel.Props.SsoProps", "SamlModel.Props.NewSpGen", "SamlModel.Props.Stateless"],
+        "modules": ["SamlModel.Props.C09", "SamlModel.Props.HandlerGen", "SamlModel.Props.SendBack", "SamlModel.Props.LogoutProps", "SamlModel.Props.AttrQueryProps", "SamlModel.Props.SsoProps", "SamlModel.Props.NewSpGen", "SamlModel.Props.Stateless", "SamlModel.Props.DecodeGen", "SamlModel.Props.MetadataGen", "SamlModel.Props.MetadataProps"],
         "translated": ["NewServiceProvider", "getSigningCertsFromMetadata", "certificateCheckNecessary", "checkCertificate", "equalCertificateText", "checkRequestRequiredContent", "verifyRequestDestinationOfAuthRequest",
                        "verifyRequestDestinationOfAttrQuery", "GetCertsFromKeyDescriptors", "getResponseCert", "GetAcsUrlAndBindingForResponse",
-                       "signaturePostProvided", "signatureRedirectVerificationNecessary", "signaturePostVerificationNecessary", "verifyRedirectSignature", "verifyPostSignature"],
+                       "signaturePostProvided", "signatureRedirectVerificationNecessary", "signaturePostVerificationNecessary", "verifyRedirectSignature", "verifyPostSignature", "Provider_metadataHandle", "Provider_GetMetadata", "Config_getMetadata", "getMetadataCert", "IdentityProvider_GetMetadata", "DecodeAuthNRequest", "DecodeLogoutRequest"],
         "trusted_base": COMMON_TRUST + SSO_TRUST + CB_TRUST + SLO_TRUST + AQ_TRUST + [
             "go2lean's panic guards: every pointer dereference / nil-able selector of the translated Go code is emitted as an explicit `if <nil condition> then .panic`; the guard derivation itself is validated by the differential fn/handler ops (model and implementation must agree on panic vs. no panic)",
             "NewServiceProvider / getSigningCertsFromMetadata are translated (standalone): NewSpGen.newServiceProvider_no_panic (for every metadata document and every answer of ParseMetadataXmlIntoStruct / ParseCertificates that honours their contract - no error => a document, no nil certificate - the constructor returns and does not panic) and newServiceProvider_wf (what it hands out carries metadata with an SPSSODescriptor: the SpWF the handler theorems assume)",
@@ -224,7 +224,7 @@ PROPS = {
         "assumptions": ["SpWF: a registered service provider has metadata with an SPSSODescriptor (NewServiceProvider refuses others); storage returns non-nil objects with nil errors"],
     },
     "C07": {
-        "modules": ["SamlModel.Props.C07", "SamlModel.Props.SendBack", "SamlModel.Props.SsoGen", "SamlModel.Props.RedirectSigGen", "SamlModel.Props.SsoProps", "SamlModel.Props.Stateless"],
+        "modules": ["SamlModel.Props.C07", "SamlModel.Props.SendBack", "SamlModel.Props.SsoGen", "SamlModel.Props.RedirectSigGen", "SamlModel.Props.SsoProps", "SamlModel.Props.Stateless", "SamlModel.Props.DecodeGen", "SamlModel.Props.MetadataGen"],
         "translated": ["ServiceProvider_ValidateRedirectSignature", "IdentityProvider_ssoHandleFunc", "getAuthRequestFromRequest", "signatureRedirectVerificationNecessary", "signaturePostVerificationNecessary", "verifyRedirectSignature", "verifyPostSignature",
                        "certificateCheckNecessary", "checkCertificate", "checkRequestRequiredContent", "checkIfRequestTimeIsStillValid",
                        "verifyRequestDestinationOfAuthRequest", "verifyRequestDestinationOfAttrQuery", "GetAcsUrlAndBindingForResponse"],
